@@ -56,7 +56,7 @@ Definition dec_tbl (decin : stream) (t : list (N * dres)) (c : codec) (s : strea
 Inductive vcase :=
 (* end-to-end, full bytes *)
 | EC (type : string) (level : Z) (ce : list string) (body : option bytes) (chunked rerr cerr : bool)
-     (max : Z) (algs : option (list string)) (custom : list (string * N))
+     (max : Z) (algs : option (list string)) (custom : list (string * option N))
      (enc : list ((N * Z) * bytes)) (decin : stream) (dect : list (N * dres))
      (* observed: client (0 sent / 1 configuration refused / 2 RoundTrip error, nothing sent); wire
         header values and body; server outcome (0 handler ran / 1 rejected / 2 panicked), status,
@@ -64,7 +64,7 @@ Inductive vcase :=
      (o_client : N) (o_wce : list string) (o_wbody : bytes) (o_wcl : Z)
      (o_kind : N) (o_status : Z) (o_hce : list string) (o_cl : Z) (o_data : bytes) (o_err : N)
 (* server only, sizes only (large bodies) *)
-| LC (max : Z) (algs : option (list string)) (custom : list (string * N))
+| LC (max : Z) (algs : option (list string)) (custom : list (string * option N))
      (ce : list string) (n cl : Z) (ldect : list (N * ldres))
      (o_kind : N) (o_status : Z) (o_hce : list string) (o_cl : Z) (o_len : Z) (o_err : N).
 
